@@ -122,3 +122,20 @@ let run_hist_http = function
     L [A "trace"; L (go M.init_state ops [])]
   | _ -> failwith "bad hist case"
 let () = register "histh" run_hist_http
+
+(* the v1 API maps a request without postings to VALIDATION *)
+let http1_err = function M.ENoPostings -> "400:VALIDATION" | e -> http_err e
+let () = register "histh1" (function
+  | L [A "histh1"; feat; L ops] ->
+    let f = features_of feat in
+    let rec go s ops acc = match ops with
+      | [] -> List.rev acc
+      | L [now; op] :: rest ->
+        (match M.step f (zarg now) s (op_of op) with
+         | M.SPanic -> List.rev (L [L [A "panic"]] :: acc)
+         | M.SR (s', r) ->
+           let rs = (match r with M.ROk (_, t, hit) -> L [A "ok"; optz t; b01 hit] | M.RErr e -> L [A "err"; S (http1_err e)]) in
+           go s' rest (L [rs; state_sx s'] :: acc))
+      | _ -> failwith "bad step" in
+    L [A "trace"; L (go M.init_state ops [])]
+  | _ -> failwith "bad hist case")
